@@ -773,6 +773,18 @@ func c18DisableScope(c *Ctx, pk *packages.Package) {
 		}
 		c.Ob(rule, inst, pos, len(diffs) == 0, true, "%s-option consumer evaluated on %d rule shapes; deviations from the scope table: %v", side, n, diffs)
 	}
+	// predicates extracted into package helpers are evaluated through their bodies
+	bfInline = func(call *ast.CallExpr) (*ast.BlockStmt, *types.Info) {
+		fn := Callee(info, call)
+		if fn == nil || fn.Pkg() != pk.Types || fn.Name() == "fileMatchConfig" {
+			return nil, nil
+		}
+		if d := p.DeclOf(fn); d != nil && d.Decl.Body != nil {
+			return d.Decl.Body, d.Info()
+		}
+		return nil, nil
+	}
+	defer func() { bfInline = nil }()
 	found := 0
 	for _, fr := range p.FuncsOf(pk) {
 		if fr.Decl.Body == nil {
@@ -792,13 +804,22 @@ func c18DisableScope(c *Ctx, pk *packages.Package) {
 				if len(x.Args) != 2 || !isDisablesCall(x.Args[0]) {
 					return true
 				}
-				fl, ok := ast.Unparen(x.Args[1]).(*ast.FuncLit)
-				if !ok {
+				var flBody *ast.BlockStmt
+				if fl, ok := ast.Unparen(x.Args[1]).(*ast.FuncLit); ok {
+					flBody = fl.Body
+				} else if id := lastIdent(x.Args[1]); id != nil {
+					if fn, ok := info.Uses[id].(*types.Func); ok {
+						if d := p.DeclOf(fn); d != nil {
+							flBody = d.Decl.Body
+						}
+					}
+				}
+				if flBody == nil {
 					return true
 				}
 				found++
 				evalAll(fr.Decl.Name.Name+"/filter-disables", x.Pos(), "field", func(atom func(ast.Expr) (tri, bool)) bfOutcome {
-					return bfEvalFunc(info, fl.Body, atom, func(ast.Expr) (tri, bool) { return triUnknown, false }, func(ast.Expr) (string, bool) { return "", false })
+					return bfEvalFunc(info, flBody, atom, func(ast.Expr) (tri, bool) { return triUnknown, false }, func(ast.Expr) (string, bool) { return "", false })
 				})
 			}
 			return true
